@@ -48,6 +48,48 @@ def r19_text(chk):
     chk.rule("R19-text", "A2ML nodes (types, members, tagged items, enumerators) of the reference invocations compared between macro input and generated text constant", n, floor=90)
 
 
+def thorough(chk):
+    """R19-typecheck (thorough tier): the expansion of the reference invocations by the in-tree generator type-checks against
+    /repo's a2lfile (cargo check of a scratch crate that replaces the registry a2lmacros by the in-tree one; nothing is run)."""
+    import os, shutil, subprocess, tempfile
+    inv = os.path.join(common.VERIF, "oracle", "a2ml_invocations")
+    base = tempfile.mkdtemp(prefix="verif-c19-")
+    n = 0
+    try:
+        os.makedirs(os.path.join(base, "src"))
+        with open(os.path.join(base, "Cargo.toml"), "w") as fh:
+            fh.write('[package]\nname = "c19witness"\nversion = "0.0.0"\nedition = "2021"\n[dependencies]\na2lfile = { path = "%s/a2lfile" }\n[patch.crates-io]\na2lmacros = { path = "%s/a2lmacros" }\n[workspace]\n' % (common.REPO, common.REPO))
+        shutil.copy(os.path.join(common.REPO, "Cargo.lock"), os.path.join(base, "Cargo.lock"))
+        mods = []
+        for fn in sorted(os.listdir(inv)):
+            src = open(os.path.join(inv, fn)).read()
+            if not fn.endswith(".rs") or "verif: no-typecheck" in src:
+                continue
+            n += 1
+            mods.append("#[allow(dead_code, unused_imports)]\nmod m_%s {\n    use a2lfile::*;\n%s\n}\n" % (fn[:-3], src))
+        with open(os.path.join(base, "src", "lib.rs"), "w") as fh:
+            fh.write("\n".join(mods))
+        env = dict(os.environ, CARGO_TARGET_DIR=os.path.join(base, "target"), CARGO_NET_OFFLINE="true")
+        # drop the registry a2lmacros from the copied lock file: cargo then resolves the dependency to the [patch] (in-tree) crate
+        lock = open(os.path.join(base, "Cargo.lock")).read()
+        blocks = lock.split("\n[[package]]\n")
+        blocks = [b for b in blocks if not b.startswith('name = "a2lmacros"')]
+        with open(os.path.join(base, "Cargo.lock"), "w") as fh:
+            fh.write("\n[[package]]\n".join(blocks))
+        t = subprocess.run(["cargo", "tree", "--offline", "-i", "a2lmacros"], cwd=base, env=env, stdout=subprocess.PIPE, stderr=subprocess.STDOUT, text=True)
+        if "/a2lmacros)" not in t.stdout:
+            raise common.EngineFailure("witness crate does not link the in-tree a2lmacros: " + t.stdout[-300:])
+        r = subprocess.run(["cargo", "check", "--offline", "--message-format=short"], cwd=base, env=env, stdout=subprocess.PIPE, stderr=subprocess.STDOUT, text=True)
+        if r.returncode != 0:
+            errs = [l for l in r.stdout.splitlines() if "error" in l][:6]
+            if any("could not compile `a2lfile`" in l or "could not compile `a2lmacros`" in l for l in r.stdout.splitlines()):
+                raise common.EngineFailure("the tree does not build: " + " | ".join(errs))
+            chk.add(Finding("R19-typecheck", "R19-typecheck::reference-invocations", "the code generated by the in-tree generator for the reference invocations does not type-check against a2lfile: " + " | ".join(errs), "a2lmacros/src/codegenerator"))
+    finally:
+        shutil.rmtree(base, ignore_errors=True)
+    chk.rule("R19-typecheck", "reference invocations whose expansion by the in-tree generator type-checks against the library (cargo check of a scratch crate, nothing executed)", n, floor=2)
+
+
 def run(chk):
     prog = mir.prog()
     panics.run_scope(chk, "R19-total", prog, scopes.ifdata_access_scope(prog), what="panic obligations in the GenericIfData::get_* accessors (structural mismatch must yield Err, not a panic)", floor=4)
